@@ -692,9 +692,41 @@ class Interp:
             obj = self.eval(t.value, env)
             idx = self.eval_index(t.slice, env)
             cur = self.getitem(obj, idx)
-            self.setitem(obj, idx, self.augop(type(s.op), cur, self.eval(s.value, env)))
+            v = self.augop(type(s.op), cur, self.eval(s.value, env))
+            obj = self._promote_local_array(t, obj, v, env)
+            self.setitem(obj, idx, v)
         else:
             raise Unsupported("augmented assignment target")
+
+    def _promote_local_array(self, t, obj, v, env):
+        """a symbolic value is stored into a NUMERIC numpy array held by a local variable (e.g. `rdm = np.zeros(..., dtype=complex)`): the array is replaced by an
+        object-dtype copy in every variable of the enclosing interpreted frames that holds it. Sound only if nothing else references the array: every other referrer
+        (checked through the garbage collector) makes the construct unsupported."""
+        if not (isinstance(obj, np.ndarray) and obj.dtype != object and has_sym(v) and isinstance(t.value, ast.Name)):
+            return obj
+        import gc
+        new = obj.astype(object)
+        holders = []
+        e = env
+        while e is not None:
+            for k, x in e.vars.items():
+                if x is obj:
+                    holders.append((e.vars, k))
+            e = e.parent
+        allowed = {id(d) for d, _ in holders}
+        for r in gc.get_referrers(obj):
+            if id(r) in allowed or r is holders or isinstance(r, types.FrameType):
+                continue
+            if isinstance(r, (list, tuple)) and any(r is h for h in holders):
+                continue
+            if isinstance(r, np.ndarray) and r.base is obj:
+                raise Unsupported("symbolic value stored into a numeric numpy array that has views")
+            if isinstance(r, dict) and any(r is d for d, _ in holders):
+                continue
+            raise Unsupported("symbolic value stored into a numeric numpy array that is shared with other objects")
+        for d, k in holders:
+            d[k] = new
+        return new
 
     def assign(self, t, v, env):
         if isinstance(t, ast.Name):
@@ -702,7 +734,8 @@ class Interp:
         elif isinstance(t, ast.Attribute):
             self.setattr(self.eval(t.value, env), t.attr, v)
         elif isinstance(t, ast.Subscript):
-            self.setitem(self.eval(t.value, env), self.eval_index(t.slice, env), v)
+            obj = self._promote_local_array(t, self.eval(t.value, env), v, env)
+            self.setitem(obj, self.eval_index(t.slice, env), v)
         elif isinstance(t, (ast.Tuple, ast.List)):
             vals = list(self.iterate(v))
             star = [i for i, e in enumerate(t.elts) if isinstance(e, ast.Starred)]
